@@ -457,7 +457,7 @@ def XNode.name : XNode → QN
 def anyTypeDef : TypeDef :=
   { attrs := [], anyAttr := some (.any, .lax), content := .elems true (.star (.sym (.any .any .lax))) }
 
-def anyDecl : ElemDecl := { name := 0, ty := .anyType, nillable := true }
+def anyDecl : ElemDecl := { name := 0, ty := .anyType, nillable := false }
 
 inductive Err where
   | unknownRoot | abstractElem | abstractType | badXsiType | nilNotAllowed | nilNotEmpty
